@@ -24,6 +24,7 @@ from concurrent.futures import ThreadPoolExecutor
 from lib import core
 
 DRIVER = "drv_spacebounds"
+LEAN_TARGETS = ["OmplModel.Props.C08", DRIVER]
 EPS = 2.0 ** -52
 PI = math.pi
 
@@ -784,8 +785,8 @@ def run(ck):
                        "sampler outputs of the real code are sampled (OMPL's rng_ cannot be scripted), not proved; "
                        "the sampler theorems are about the model's sampler logic over real numbers",
                        "IEEE rounding is executed (lock-step) but not verified by the real-number theorems"]
-    ck.lean_build(["OmplModel.Props.C08", DRIVER])
-    ck.audit()
+    ck.lean_build(LEAN_TARGETS)
+    ck.audit(roots=["Drv.SpaceBounds"])
     if ck.tier == "thorough" and ck.lean_ok:
         ck.leanchecker(["OmplModel.Props.C08"])
     hbin = ck.build_harness("spacebounds", ["spacebounds.cpp"], link_ompl=True)
